@@ -18,18 +18,30 @@ from checks import c01
 KNOWN_CLASS = {"C06": "dyn-async-delegation-demands-send"}
 
 
+MC = {"C06": ("MC_C06", ["TraitCall", "RunDelegatingBody", "CalleeBody", "TraitRet"]),
+      "C07": ("MC_C06", ["TraitCall", "RunDelegatingBody", "CalleeBody", "TraitRet"]),
+      "C05": ("MC_C05", ["TraitCall", "ImplTBody", "ConcreteBody", "ProviderBody", "FnBody", "Return"])}
+RULE = {"C05": "concrete dependency shapes {ident, path, generic instantiation, tuple, reference with explicit lifetime} x sync/async x "
+               "{owned, borrowed-from-deps, borrowed-from-argument} returns x <= N parameters; per program a direct call, a call on C, on "
+               "Impl<C> and on Impl<App> (hand-written `impl Tr for App`), plus availability of C, Impl<C>, App, Impl<App>, X, Impl<X>, "
+               "a non-Sync App and its Impl"}
+
+
 def main(pid="C06"):
     chk = vf.Check(pid)
     thorough = vf.tier() == "thorough"
-    cases, res = vf.mc_cases(chk, "MC_C06", cfg_edits=({"MaxParams = 2": "MaxParams = 3"} if thorough else None),
-                             actions=["TraitCall", "RunDelegatingBody", "CalleeBody", "TraitRet"], workers=12, heap="12g")
+    module, actions = MC[pid]
+    cases, res = vf.mc_cases(chk, module, cfg_edits=({"MaxParams = 2": "MaxParams = 3"} if thorough else None),
+                             actions=actions, workers=12, heap="12g")
+    for c in cases:
+        c["prog"].setdefault("prop", pid)
     cases = [c for c in cases if c["prog"]["prop"] == pid]
     rng = random.Random(vf.seed())
     if not thorough:
         groups = {}
         for c in cases:
             p = c["prog"]
-            key = (p["async"], p.get("sel"), p.get("extra"), p.get("kind"), p.get("depbounds"), len(p["params"]))
+            key = (p["async"], p.get("sel"), p.get("extra"), p.get("kind"), p.get("depbounds"), len(p["params"]), p.get("shape"), p.get("ret"))
             groups.setdefault(key, []).append(c)
         sel = []
         for k in sorted(groups, key=str):
@@ -41,7 +53,7 @@ def main(pid="C06"):
     progs = {}
     for n, c in enumerate(sel):
         c["feature"] = (n % 2 == 0)
-        render = traitprogs.render_c06 if pid == "C06" else traitprogs.render_c07
+        render = {"C06": traitprogs.render_c06, "C07": traitprogs.render_c07, "C05": traitprogs.render_c05}[pid]
         progs[c["case"]] = render("c" + c["case"], c, vf.seed())
     events, dropped, recs = c01.run_programs(chk, sel, progs, pid.lower(), "", ["vt", "async-trait"])
     bad, drift = vf.validate(chk, "Trace_Runtime", events, timeout=2400)
@@ -69,7 +81,7 @@ def main(pid="C06"):
     chk.cov["programs_enumerated"] = len(cases)
     chk.cov["programs_rejected_by_rustc"] = len(dropped)
     chk.cov["distinct_nontrivial"] = len({json.dumps(c["prog"], sort_keys=True) for c in sel if c["case"] not in dropped})
-    chk.cov["rule"] = ("abstract trait programs of spec/TraitPrograms.tla: " +
+    chk.cov["rule"] = (RULE[pid] + "; non-trivial = compiled") if pid in RULE else ("abstract trait programs of spec/TraitPrograms.tla: " +
                        ("1..3 same-signature methods x <= N parameters x {sync, async fn, async_trait} x {Self, ref, Borrow} x "
                         "{generic trait, where clause, generic method, supertrait, borrowed return}; applications that provide / do not provide / "
                         "are not Sync / are not Send" if pid == "C06" else
